@@ -1,7 +1,7 @@
 CONSTANTS Big = FALSE CP = 67 CB = 7 CN = 79 CGx = 2 CGy = 22
 SignMsgs = {0,1,2}
 SignAuxs = {0,1}
-VerMsgs = {1,2}
+VerMsgs = {2}
 CountPks = {2,3}
 LenDs = {1,2,3,77,78}
 EmitRows = TRUE
